@@ -363,7 +363,7 @@ pub extern "C" fn tsrun_get(
         return TsRunValueResult::err(ctx, "Value is not an object".to_string());
     };
 
-    let prop_key = PropertyKey::String(JsString::from(key_str));
+    let prop_key = PropertyKey::from_name(key_str);
     let value = obj_ref
         .borrow()
         .get_property(&prop_key)
@@ -409,7 +409,7 @@ pub extern "C" fn tsrun_set(
         return TsRunResult::err(ctx, "Value is not an object".to_string());
     };
 
-    let prop_key = PropertyKey::String(JsString::from(key_str));
+    let prop_key = PropertyKey::from_name(key_str);
     obj_ref
         .borrow_mut()
         .set_property(prop_key, val_ref.value().clone());
@@ -443,7 +443,7 @@ pub extern "C" fn tsrun_has(
         return false;
     };
 
-    let prop_key = PropertyKey::String(JsString::from(key_str));
+    let prop_key = PropertyKey::from_name(key_str);
     obj_ref.borrow().get_property(&prop_key).is_some()
 }
 
@@ -478,7 +478,7 @@ pub extern "C" fn tsrun_delete(
         return TsRunResult::err(ctx, "Value is not an object".to_string());
     };
 
-    let prop_key = PropertyKey::String(JsString::from(key_str));
+    let prop_key = PropertyKey::from_name(key_str);
     obj_ref.borrow_mut().properties.remove(&prop_key);
 
     TsRunResult::success()
